@@ -183,7 +183,8 @@ def variants(spec: dict) -> list:
     ek = dict(spec.get("endpoint_kwargs", {}))
     ek["deadend_start"] = not ek.get("deadend_start", False)
     v("endpoint_kwargs", endpoint_kwargs=ek)
-    v("seed", seed=spec["seed"] + 1)
+    v("seed", seed=(spec["seed"] + 1) % 2**32)
+    v("seed-other-half", seed=(spec["seed"] + 2**31) % 2**32)
     v("applied_filters", applied_filters=list(spec.get("applied_filters", [])) + [{"name": "path_length", "args": [1], "kwargs": {}}])
     return out
 
@@ -278,6 +279,10 @@ def st_history(spec):
         try:
             cfg = make_cfg(cs)
             live[i] = cfg
+            given = {"name": cs["name"], "grid_n": cs["grid_n"], "n_mazes": cs["n_mazes"], "seed": cs["seed"]}
+            held = {k: getattr(cfg, k) for k in given}
+            if held != given:
+                raise core.Violation("C18.roundtrip-equal", f"config #{i}: constructed with {given} but holds {held} (so its serialised form describes another configuration)")
             text = json.dumps(cfg.serialize())
             h = cfg.stable_hash_cfg()
             fn = cfg.to_fname()
@@ -431,7 +436,7 @@ def rand_cfg(rng: random.Random, tuples: bool) -> dict:
         "maze_ctor": gen,
         "maze_ctor_kwargs": kw,
         "endpoint_kwargs": _ds.rand_endpoint_kwargs(rng, n, True),
-        "seed": rng.choice([42, 0, 1, 2**31 - 1, rng.randrange(2**31)]),
+        "seed": rng.choice([42, 0, 1, 2**31 - 1, rng.randrange(2**31), 2**31, 2**31 + rng.randrange(2**31), 2**32 - 1]),  # every value numpy/torch accept as a seed
         "applied_filters": filters,
     }
 
